@@ -1,0 +1,46 @@
+//! Verification facade: `sched` (feature `verif`) — yield points.
+//!
+//! `yield_point(tag)` calls sit at the places where the interleaving of statements issued from several
+//! threads is decided: after a transaction's snapshot has been taken, around the commit of a transaction,
+//! between fetching a page and asking for its latch, between the tree operations of one statement (table
+//! tree, index trees, catalog tree) and between leaving a leaf and latching the next one.  With no hook
+//! installed a yield point is one relaxed atomic load.  An external harness installs a hook that decides,
+//! per tag and per hit, whether the calling thread yields, spins or sleeps there.
+use std::sync::{
+    Arc,
+    atomic::{AtomicBool, Ordering},
+};
+
+use parking_lot::RwLock;
+
+/// The places that call [`yield_point`].
+pub const TAGS: [&str; 6] = [
+    "snapshot_taken",
+    "commit_logged",
+    "committed",
+    "page_fetched",
+    "tree_write",
+    "leaf_released",
+];
+
+pub type Hook = Arc<dyn Fn(&'static str) + Send + Sync>;
+
+static ENABLED: AtomicBool = AtomicBool::new(false);
+static HOOK: RwLock<Option<Hook>> = RwLock::new(None);
+
+/// Installs (`Some`) or removes (`None`) the hook. Process-wide.
+pub fn install(hook: Option<Hook>) {
+    let on = hook.is_some();
+    *HOOK.write() = hook;
+    ENABLED.store(on, Ordering::SeqCst);
+}
+
+#[inline]
+pub(crate) fn yield_point(tag: &'static str) {
+    if ENABLED.load(Ordering::Relaxed) {
+        let hook = HOOK.read().clone();
+        if let Some(h) = hook {
+            h(tag);
+        }
+    }
+}
